@@ -244,7 +244,7 @@ func c02Check(ps []c02Posting, label string) {
 	}
 	// ---- real code ----
 	s := NewServer()
-	diags := s.analyze(doc)
+	diags := s.analyze(doc, nil)
 	nUnb, nMulti, nOther := 0, 0, 0
 	for _, d := range diags {
 		switch d.Code {
